@@ -25,6 +25,38 @@ CLAIMED = {
             "cut off exactly. Container kind / bit-exactness / finiteness are observed on the implementation by the correspondence run and oracle.",
             "model coq/Model/Rfa.v tied by sampled correspondence; ndarray kind, -0.0 and finiteness are runtime observations, not theorems",
             "Coq proof + in-Coq correspondence"),
+    "C06": ("Coq theorems: the five GENERATED shape functions equal their documented closed forms for every power function and hit both end points; "
+            "the fixed-window border value is the linear interpolation at the border between the plateau ends (jump divided in the ratio of the "
+            "interval widths); adaptive windows are adaptive_pair on the neighbouring jumps: proportional split for adaptive_smooth=1, the larger jump "
+            "never gets the larger window, tie cases. Transition shapes are the closed forms of Model/RfaSpec.v (link theorems in C05).",
+            "Gen/Funfit.v regenerated from funfit.py on every run; model coq/Model/Rfa.v tied by sampled correspondence incl. direct calls of "
+            "get_adaptive_transition_points; cases where the float int() branch differs from the exact one are dropped (counted)",
+            "Coq proof over generated definitions + in-Coq correspondence"),
+    "C07": ("Coq theorems on the closed forms the strategies compute: y -> a*y+b and x -> c*x+d equivariance of borders, shapes and adaptive windows "
+            "(windows depend on values only through ratios of absolute jumps), locality (radius 1 fixed, 2 adaptive), additivity and monotonicity "
+            "in the values for the fixed strategies, piecewise-constant linearity; plus metamorphic pairs of real runs. Cubic spline: oracle only.",
+            "closed forms of Model/RfaSpec.v (linked to the model in C05); cubic spline is SciPy's",
+            "Coq proof + in-Coq correspondence + metamorphic oracle"),
+    "C15": ("Coq theorems: noise changes y only, additively by the draw; scale^2 * SNR = mean(y^2) (signal power, not squared mean). Partial: zero "
+            "mean / Gaussian shape / seed reproducibility / empirical SNR are NumPy's and are tested, not proved. The arguments reaching "
+            "numpy.random.normal are recorded and compared with the model on every run.",
+            "sqrt and 10**(snr/10) are oracles; NumPy generator statistics are tests", "Coq proof (thin) + argument-recorder correspondence"),
+    "C16": ("Coq theorems: the s reaching FITPACK is the explicit one or len(y)*var(y); smoothing stores FITPACK's answer in y only and keeps x and "
+            "the length; residual bound / identity for s=0 hold for every answer meeting the FITPACK contract; to_function's default s=0 is read "
+            "from the GENERATED defaults. Partial (thin): FITPACK honouring s is an oracle contract, spot-checked.",
+            "FITPACK is an oracle; Gen/Defaults.v regenerated on every run", "Coq proof (thin) + argument-recorder correspondence"),
+    "C18": ("Coq theorems by vm_compute over the GENERATED registry, description tables and bundled CSVs (finite domain, bound = the 95 generated "
+            "names, lifted with forallb_forall): every documented name in both spellings resolves to a loader of its family, urls / checksums / "
+            "remote files / normalised cache slots pairwise distinct, checksum validation on, bundled CSVs well-formed, unknown names rejected.",
+            "tools/translate.py (registry, tables, CSVs); hand model of load_dataset's lookup tied by exhaustive correspondence with a network recorder",
+            "Coq proof (finite, vm_compute) over regenerated definitions + exhaustive correspondence"),
+    "C19": ("Coq theorems over a small-step model of the loader with any number of processes: retries absorbed / exhausted, checksum gate, the cache "
+            "invariant (every entry absent or a complete copy of verified data) is preserved by every step of every process incl. crashes and "
+            "network events, hence for all schedules; cache hit needs no network; later load succeeds; frame / independence across slots. "
+            "Partial: rename atomicity, file closing and real parallelism are assumed by the step granularity and observed by killed-subprocess "
+            "and gated-thread runs.",
+            "coq/Model/Cache.v tied by fault-script, crash-point (os._exit at 8 boundaries) and gated-thread correspondence; sha/parse/network are oracles",
+            "Coq proof (inductive invariant over interleavings) + fault-injection correspondence"),
     "C08": ("Coq theorems over the Weaver state machine: working = reference is an invariant of every domain operation, hence of every history "
             "of any length (induction), and both equal the fold of the pure transformations; reshaping operations never touch the reference "
             "(also when they raise). Tied by exhaustive short + random program correspondence with state comparison after every step.",
